@@ -241,6 +241,14 @@ func (c *goCallable) Call(argv []reflect.Value) (reflect.Value, error) {
 		return undefined, err
 	}
 
+	// A nil function (e.g. a nil jtypes.Callable) is not a
+	// value that the evaluator could call or pass on: the
+	// call has no value.
+	if r := results[0]; (r.Kind() == reflect.Interface || r.Kind() == reflect.Ptr) &&
+		r.IsNil() && r.Type().Implements(jtypes.TypeCallable) {
+		return undefined, nil
+	}
+
 	return results[0], nil
 }
 
